@@ -238,12 +238,44 @@ example :
 /-- the rules evaluated at one rule timestep are applied in exactly that order -/
 theorem rules_priority_wins (cfg : Cfg) (s : St) (k : Nat) :
     (runRules cfg s).vals.get k =
-      match winner k (check cfg.startClock s.prevTime s.simTime cfg.rules) with
+      match winner k (check cfg.startClock (s.simTime - cfg.rule) s.simTime cfg.rules) with
       | some w => (w.writes k).getD 0
       | none => s.vals.get k := by
   unfold runRules
   simp only
   exact priority_wins _ _ _
+
+/-- **a rule with an `=` time premise acts at the first rule timestep at or after its instant**: at the rule timestep
+`r` the rule `IF SYSTEM TIME = c` is due iff `r - rule_timestep < c ≤ r`, whatever hydraulic solutions lie in between
+(the windows of consecutive rule timesteps tile the time axis, and by `rules_on_positive_grid` every positive multiple
+up to the current time is evaluated exactly once) -/
+theorem rule_eq_premise_window (cfg : Cfg) (s : St) (c : Ctl) (thr : Int) (hc : c.cond = .sim ⟨.eq, thr, 0⟩) (hm : c ∈ cfg.rules) :
+    (s.simTime - cfg.rule < thr ∧ thr ≤ s.simTime) →
+      ∃ d ∈ check cfg.startClock (s.simTime - cfg.rule) s.simTime cfg.rules, d.ctl = c ∧ d.which = .thenB := by
+  intro hw
+  unfold check
+  refine ⟨⟨c, .thenB, s.simTime - thr⟩, ?_, rfl, rfl⟩
+  apply List.mem_filterMap.2
+  refine ⟨c, hm, ?_⟩
+  have : c.cond.eval cfg.startClock (s.simTime - cfg.rule) s.simTime = (true, some (s.simTime - thr)) := by
+    rw [hc]; simp only [Cond.eval]; rw [simTime_eq_spec, if_pos hw]
+  rw [this]; rfl
+
+/-- the window the code used before the repair — the previous SOLVE time — misses the premise when a control makes
+the simulator solve between the instant and the next rule timestep: rule `SYSTEM TIME = 3:41`, rule step 30 min, a
+simple control at 3:53 (solve at 13980 s); at the rule timestep 14400 s the old window is (13980, 14400] -/
+theorem old_rule_window_misses :
+    ((Cond.sim ⟨.eq, 13260, 0⟩).eval 0 13980 14400).1 = false ∧ ((Cond.sim ⟨.eq, 13260, 0⟩).eval 0 (14400 - 1800) 14400).1 = true := by
+  decide
+
+/-- the directed case on the (repaired) model: the rule opens key 0 at 14400 s although the run stops at 13980 s -/
+def cfgRuleEq : Cfg :=
+  { hyd := 3600, rule := 1800, report := 0, duration := 21600, startClock := 0,
+    presolve := [⟨1, 3, .sim ⟨.eq, 13980, 0⟩, [⟨1, 0⟩], []⟩],
+    rules := [⟨0, 3, .sim ⟨.eq, 13260, 0⟩, [⟨0, 1⟩], []⟩] }
+
+example : (runSim cfgRuleEq 0 (-1) [(0, 0), (1, 1)]).2.map (fun r => (r.time, r.vals.get 0)) =
+    [(0, 0), (3600, 0), (7200, 0), (10800, 0), (13980, 0), (14400, 1), (18000, 1), (21600, 1)] := by decide
 
 /-- **(iii) `rules_on_positive_grid`.** For every configuration and every legitimate start, the times at which
 `run_sim` evaluated the rules are `k · rule_timestep` with `k ≥ 1` (never `t = 0`, never before the first hydraulic
